@@ -936,6 +936,42 @@ def gen_SfFacts():
     return "".join(out), {x.path: x.digest for x in (sf, er)}
 
 
+def gen_ReconFacts():
+    """Pins for cas_client::remote_client's reconstruction path (C17)."""
+    rc = Src(os.path.join(REPO, "cas_client/src/remote_client.rs"))
+    out = [PRELUDE]
+    sq = rc.fn_body("reconstruct_file_to_writer")
+    for p_ in ["let total_len = if let Some(range) = byte_range { range.end - range.start } else { terms.iter().fold(0, |acc, x| acc + x.unpacked_length as u64) };",
+               "let start = if term_idx == 0 { max(0, offset_into_first_range as usize) } else { 0 };",
+               "let end: usize = min(remaining_len + start as u64, term_data.len() as u64) as usize; writer.write_all(&term_data[start..end])?; let len_written = (end - start) as u64; remaining_len -= len_written;",
+               ".buffered(*NUM_CONCURRENT_RANGE_GETS) .enumerate();", "Ok(total_len)"]:
+        if p_ not in sq:
+            raise TranslateError("reconstruct_file_to_writer changed: %r" % p_)
+    pr = rc.fn_body("reconstruct_file_to_writer_parallel")
+    for p_ in ["let start = if idx == 0 { offset_into_first_range as usize } else { 0 }; let end = min(start as u64 + remaining, term.unpacked_length as u64) as usize; let file_offset = bytes_written; let len = (end - start) as u64; bytes_written += len; remaining -= len;",
+               "task.write_term(term, start..end, file_offset)", "total_written += len_written;", "Ok(total_written)"]:
+        if p_ not in pr:
+            raise TranslateError("reconstruct_file_to_writer_parallel changed: %r" % p_)
+    wt = rc.fn_body("write_term")
+    for p_ in ["if term_range.end > term_data.len() {", "let mut writer = self.output.get_writer_at(file_offset)?; writer.write_all(&term_data[term_range])?; writer.flush()?; Ok(len)"]:
+        if p_ not in wt:
+            raise TranslateError("write_term changed: %r" % p_)
+    g1 = rc.fn_body("get_one_term")
+    for p_ in ["if let Ok(Some(cached)) = cache.get(&key, &term.range).log_error(\"cache error\") { return Ok(cached.data.to_vec()); }",
+               ".find(|fterm| fterm.range.start <= term.range.start && fterm.range.end >= term.range.end)",
+               ".work_dump_caller_info(&fetch_term.url, download_range(http_client, fetch_term.clone(), term.hash))",
+               "cache.put(&key, &fetch_term.range, &chunk_byte_indices, &data)?;",
+               "if term.range != fetch_term.range { let start_idx = term.range.start - fetch_term.range.start; let end_idx = term.range.end - fetch_term.range.start; let start_byte_index = chunk_byte_indices[start_idx as usize] as usize; let end_byte_index = chunk_byte_indices[end_idx as usize] as usize;",
+               "data.truncate(end_byte_index); data = data.split_off(start_byte_index);",
+               "if data.len() != term.unpacked_length as usize { return Err("]:
+        if p_ not in g1:
+            raise TranslateError("get_one_term changed: %r" % p_)
+    if 'format!("bytes={}-{}", range.start, range.end)' not in rc.fn_body("range_header"):
+        raise TranslateError("range_header changed")
+    out.append("Definition reconstruction_shape_pinned : bool := true.\n")
+    return "".join(out), {rc.path: rc.digest}
+
+
 GROUPS = {
     "GearTable": gen_GearTable,
     "ChunkConsts": gen_ChunkConsts,
@@ -947,4 +983,5 @@ GROUPS = {
     "CacheFacts": gen_CacheFacts,
     "CrashFacts": gen_CrashFacts,
     "SfFacts": gen_SfFacts,
+    "ReconFacts": gen_ReconFacts,
 }
